@@ -17,7 +17,7 @@ import (
 func init() { register("C18", "exploration", runC18) }
 
 func runC18(c *ev.Ctx) {
-	c.Rule = "(A) peer leecher: a real BasePeerLeecher (ticker 1-3 ms, parallelism 1..5) against a scripted peer: the harness delivers at most the requested number of chunks (unique ids), marks delivered chunks processed in random order, flips Suspend on/off, sleeps 0-3 ms between steps and finally reports Done. Oracle over the callback stream (schedule independent): every RequestChunks(n) is preceded, since the previous request, by a Suspend() answer of false and the most recent answer is false; " +
+	c.Rule = "(A) peer leecher: a real BasePeerLeecher (ticker 1-3 ms, parallelism 1..5) against a scripted peer: the harness delivers at most the requested number of chunks (unique ids), marks delivered chunks processed in random order, flips Suspend on/off, in every third run floods up to twice 2*parallelism+1..3 unrequested chunks while nothing is processed, sleeps 0-3 ms between steps and finally reports Done. Oracle over the callback stream (schedule independent): every RequestChunks(n) is preceded, since the previous request, by a Suspend() answer of false and the most recent answer is false; " +
 		"sum of requested chunks <= (#chunks for which IsProcessed answered true) + parallelism at every request; no request after Done() answered true and the loop exits (watchdog 100x the tick, canary-guarded); with capacity available and no suspension the window is refilled (bounded progress, canary-guarded). " +
 		"(B) base leecher: callbacks implemented over the exported Peers registry; StartSession prefers a peer that is being unregistered right now; three goroutines own disjoint peer names and register / unregister them while the ticker (1 ms) and ShouldTerminateSession flips drive sessions; then Terminate. Oracle: StartSession only when no session is running; after UnregisterPeer(p) returned no session with p is running and none starts until p is registered again; no session starts after Terminate returned. " +
 		"non-trivial = distinct peer-leecher runs with a suspension while capacity was available and >= 3 refills, and distinct base-leecher runs in which a peer was unregistered while it had the running session"
@@ -124,6 +124,7 @@ func c18Peer(c *ev.Ctx, r *rand.Rand, caseN int) (string, map[string]interface{}
 	delivered := 0
 	var unprocessed []int
 	steps := 20 + r.Intn(40)
+	floods, floodID := 0, 100000
 	for s := 0; s < steps; s++ {
 		mu.Lock()
 		req := requested
@@ -156,6 +157,19 @@ func c18Peer(c *ev.Ctx, r *rand.Rand, caseN int) (string, map[string]interface{}
 			suspended = !suspended
 			note(fmt.Sprintf("suspend=%v", suspended))
 			mu.Unlock()
+		case 5:
+			if caseN%3 == 1 && floods < 2 {
+				// a peer that sends more than it was asked for, while processing is slow: the chunk queue fills up and the
+				// surplus is dropped - none of that may open the request window
+				floods++
+				nf := 2*par + 1 + r.Intn(3)
+				note(fmt.Sprintf("peer floods %d unrequested chunks", nf))
+				for k := 0; k < nf; k++ {
+					floodID++
+					unprocessed = append(unprocessed, floodID)
+					_ = l.NotifyChunkReceived(floodID)
+				}
+			}
 		}
 		time.Sleep(time.Duration(r.Intn(3000)) * time.Microsecond)
 	}
@@ -173,7 +187,7 @@ func c18Peer(c *ev.Ctx, r *rand.Rand, caseN int) (string, map[string]interface{}
 	for w := 0; w < 400; w++ {
 		time.Sleep(tick)
 		mu.Lock()
-		ok := requested == len(answeredTrue)+par && len(answeredTrue) == delivered
+		ok := requested == len(answeredTrue)+par && (len(answeredTrue) == delivered || floods > 0)
 		b := bad
 		mu.Unlock()
 		if ok || b != "" {
